@@ -23,6 +23,10 @@ Second format (what the generators below emit; the old one is still read: corpus
   rm: client.RefreshMetadata returns an error in this cycle
   in kind sc2w the <sd> slot holds <mv>: the id (>= 2) of a broker that re-registers under a new address before the
       cycle (0: none), and rp = 1 runs the real reapNonExistingGroups / ListConsumerGroups after the cycle
+  Third format sc3|sc3x (worlds outside the two assumptions of the model's `env`, ClusterMod.xenv): as sc2, but a
+      partition row is { <pid> <leader at refresh|-1> <leader in generateOffsetRequests|-1> <omit> <kerror> <noffs> <off>* }
+      and after the failing brokers comes <nX> { <broker> <topic> <pid> <kerror> <noffs> <off>* } (blocks a broker adds
+      although nobody asked for them).
   kind suffix (routing inside the probe only): x = child process (may panic), s = unbuffered storage channel with a
       scripted reader, run in parallel (real time: stalls), w = real sarama client against sarama.MockBroker (wire).
   U / D = what the storage side RECEIVED.
@@ -60,12 +64,16 @@ def gen_scenario(rng, idx, force=None, bias=None, crash_p=0.01, mode=None, stall
     bias="topics": topic-set trajectories (more vanishing / re-appearing topics, more refresh faults and ticks).
     mode=None: scripted client, buffered storage channel (kind sc2 / sc2x);
     mode="stall": small layouts, the storage side stalls (kind sc2s): stall = (p of sd, p of su) per cycle;
+    mode="deviant": kind sc3 / sc3x -- Leader may answer differently during the refresh and in generateOffsetRequests
+                 of one cycle (p=0.1 per partition and cycle), a broker may omit an asked block (p=0.06) or add blocks
+                 that were not asked (p=0.15 per cycle);
     mode="wire": what sarama.MockBroker can express (kind sc2w): every call succeeds, one offset per partition, a
                  metadata tick in every cycle (the real client caches metadata between refreshes)."""
     tags = set()
     tb = bias == "topics"
     small = mode in ("stall", "wire")
     wire = mode == "wire"
+    dev = mode == "deviant"
     ntop = rng.randint(1, 2 if mode == "stall" else (3 if wire else 4))
     nb = rng.randint(2, 3) if (wire and rng.random() < 0.7) else rng.randint(1, 3)
     world = {}
@@ -222,12 +230,46 @@ def gen_scenario(rng, idx, force=None, bias=None, crash_p=0.01, mode=None, stall
                     offs, err = [], 0
                 elif err != 0 and rng.random() < 0.7:
                     offs = []
-                rt += [str(p), str(-1 if ld is None else ld), str(err), str(len(offs))] + [str(o) for o in offs]
+                lead_toks = [str(-1 if ld is None else ld)]
+                if dev:
+                    ld2, om = ld, 0
+                    r = rng.random()
+                    if r < 0.04:
+                        ld2 = None if ld is not None else rng.randrange(1, nb + 1)
+                        tags.add("deviant:leader-differs-between-call-sites")
+                    elif r < 0.07:
+                        ld2 = None
+                        if ld is not None:
+                            tags.add("deviant:leader-differs-between-call-sites")
+                    elif r < 0.10:
+                        ld2 = rng.randrange(1, nb + 1)
+                        if ld2 != ld:
+                            tags.add("deviant:leader-differs-between-call-sites")
+                    if rng.random() < 0.06 and empty != (t, p):
+                        om = 1
+                        tags.add("deviant:asked-block-omitted")
+                    lead_toks += [str(-1 if ld2 is None else ld2), str(om)]
+                rt += [str(p)] + lead_toks + [str(err), str(len(offs))] + [str(o) for o in offs]
             rows.append(rt)
         toks += [str(len(rows))]
         for rt in rows:
             toks += rt
         toks += [str(len(failing))] + [str(b) for b in failing]
+        if dev:
+            extras = []
+            if rng.random() < 0.15:
+                for _ in range(rng.choice([1, 1, 2])):
+                    xt = rng.choice([8, 9] + list(world.keys()))
+                    xp = rng.randrange(0, 3) if xt in (8, 9) else 50 + rng.randrange(0, 3)   # never an asked key
+                    xerr = rng.choice([0, 0, 0, 3, 6])
+                    xoffs = [rng.randrange(0, 10 ** 6)] if (xerr == 0 or rng.random() < 0.3) else []
+                    if any(ex[1] == str(xt) and ex[2] == str(xp) for ex in extras):
+                        continue          # one block per key in a response map
+                    extras.append([str(rng.randrange(1, nb + 1)), str(xt), str(xp), str(xerr), str(len(xoffs))] + [str(o) for o in xoffs])
+                tags.add("deviant:unasked-block-in-response")
+            toks += [str(len(extras))]
+            for ex in extras:
+                toks += ex
         cycles.append(toks)
     body = [str(kv), str(ncyc)]
     for toks in cycles:
@@ -237,6 +279,8 @@ def gen_scenario(rng, idx, force=None, bias=None, crash_p=0.01, mode=None, stall
         kind = "sc2w"
     elif mode == "stall":
         kind = "sc2s"
+    elif dev:
+        kind = "sc3x" if may_panic(parse("sc3 " + line)) else "sc3"
     else:
         kind = "sc2x" if may_panic(parse("sc2 " + line)) else "sc2"
     return kind + " " + line, tags
@@ -255,7 +299,8 @@ def parse(line):
         pos[0] += 1
         return v
 
-    scripted = f[0].startswith("sc2")
+    scripted = f[0].startswith("sc2") or f[0].startswith("sc3")
+    fmt3 = f[0].startswith("sc3")
     kv = int(nx()) if scripted else 0
     cycles = []
     for _ in range(int(nx())):
@@ -271,27 +316,44 @@ def parse(line):
         cyc["topics_ok"] = nx() == "1"
         cyc["topics"] = [int(nx()) for _ in range(int(nx()))]
         table = {}
+        ldreq, omit = {}, set()       # leader in generateOffsetRequests per (t, p); omitted asked blocks
         for _ in range(int(nx())):
             t = int(nx())
             ok = nx() == "1"
             parts, rows = [], {}
+            first_t = t not in table
             for _ in range(int(nx())):
                 p = int(nx())
                 ld = int(nx())
+                ld2, om = ld, False
+                if fmt3:
+                    ld2 = int(nx())
+                    om = nx() == "1"
                 err = int(nx())
                 offs = [int(nx()) for _ in range(int(nx()))]
                 parts.append(p)
+                if first_t and p not in rows:
+                    ldreq[(t, p)] = ld2
+                    if om:
+                        omit.add((t, p))
                 rows.setdefault(p, (ld, err, offs))
             table.setdefault(t, (ok, parts, rows))
         cyc["table"] = table
+        cyc["ldreq"], cyc["omit"] = ldreq, omit
         cyc["failing"] = set(int(nx()) for _ in range(int(nx())))
+        cyc["extras"] = []            # (broker, topic, partition, kerror, offsets): blocks answered although not asked
+        if fmt3:
+            for _ in range(int(nx())):
+                b, t, p, err = int(nx()), int(nx()), int(nx()), int(nx())
+                cyc["extras"].append((b, t, p, err, [int(nx()) for _ in range(int(nx()))]))
         cycles.append(cyc)
     assert pos[0] == len(f), "trailing tokens in case line"
     return cycles
 
 
 def may_panic(cycles):
-    return any(err == 0 and not offs for c in cycles for (_, _, rows) in c["table"].values() for (_, err, offs) in rows.values())
+    return any(err == 0 and not offs for c in cycles for (_, _, rows) in c["table"].values() for (_, err, offs) in rows.values()) \
+        or any(err == 0 and not offs for c in cycles for (_, _, _, err, offs) in c["extras"])
 
 
 def parse_out(line):
@@ -337,11 +399,18 @@ def project_c12(line):
 # ------------------------------------------------------------------------------------------------
 
 def _leader(cyc, t, p):
+    """client.Leader(t, p) as the REFRESH sees it (kafka_cluster.go:179)"""
     row = cyc["table"].get(t)
     if row is None or p not in row[2]:
         return None
     ld = row[2][p][0]
     return None if ld < 0 else ld
+
+
+def _leader_req(cyc, t, p):
+    """client.Leader(t, p) as generateOffsetRequests sees it (:219); the same unless the case is an sc3 one"""
+    ld = cyc["ldreq"].get((t, p))
+    return None if ld is None or ld < 0 else ld
 
 
 def _answer(cyc, t, p):
@@ -362,19 +431,50 @@ def _refreshed_snapshot(cyc):
     return snap
 
 
-def _expect(cyc, snap):
-    """-> (requests, updates, unknown_leader, partition_error, undefined) for the partitions known to have a leader"""
+def _unknown_leader_at_refresh(cyc):
+    """did a refresh of this cycle meet a partition without leader?  (topic by topic, until the first failing
+    Partitions call, as maybeUpdateMetadataAndDeleteTopics walks the list)"""
+    if not cyc["topics_ok"]:
+        return False
+    for t in cyc["topics"]:
+        row = cyc["table"].get(t)
+        if row is None or not row[0]:
+            return False
+        if any(_leader(cyc, t, p) is None for p in row[1]):
+            return True
+    return False
+
+
+def _any_empty_answer(cyc):
+    """some partition (or unasked block) that a reachable broker would answer with ErrNoError and no offset"""
+    for t, (_, _, rows) in cyc["table"].items():
+        for p, (_, err, offs) in rows.items():
+            ld = _leader_req(cyc, t, p)
+            if err == 0 and not offs and ld is not None and ld not in cyc["failing"]:
+                return True
+    return any(err == 0 and not offs and b not in cyc["failing"] for (b, _, _, err, offs) in cyc["extras"])
+
+
+def _expect(cyc, snap, asked_brokers=()):
+    """-> (requests, updates, unknown_leader, partition_error, undefined, tolerated, outside) for the partitions known
+    to have a leader.  tolerated: (t, p, off) of successful blocks that brokers add unasked; outside: some answering
+    broker omitted an asked block or added an unasked one -- the texts say nothing about such brokers."""
     want_r, want_u = set(), set()
-    unknown_leader = partition_error = undefined = False
+    unknown_leader = partition_error = undefined = outside = False
+    answering = set()
     for t, (ids, count, _) in snap.items():
         for p in ids:
-            ld = _leader(cyc, t, p)
+            ld = _leader_req(cyc, t, p)
             if ld is None:
                 unknown_leader = True
                 continue
             want_r.add((ld, t, p))
             if ld in cyc["failing"]:
                 continue
+            answering.add(ld)
+            if (t, p) in cyc["omit"]:
+                outside = True
+                continue                 # the broker did not answer this block: no answer, no update, no error
             err, offs = _answer(cyc, t, p)
             if err != 0:
                 partition_error = True
@@ -382,7 +482,20 @@ def _expect(cyc, snap):
                 want_u.add((t, p, offs[0], count))
             else:
                 undefined = True     # ErrNoError without any offset: the texts say nothing (the implementation panics)
-    return want_r, want_u, unknown_leader, partition_error, undefined
+    answering |= {b for b in asked_brokers if b not in cyc["failing"]}
+    tolerated = set()
+    for (b, t, p, err, offs) in cyc["extras"]:
+        if b in answering:
+            outside = True
+            if err == 0 and not offs:
+                undefined = True
+            elif err == 0:
+                tolerated.add((t, p, offs[0]))
+    return want_r, want_u, unknown_leader, partition_error, undefined, tolerated, outside
+
+
+FINDING_LEADERLESS = "C11:leaderless-at-refresh"
+TAG_LEADERLESS = "[leaderless-at-refresh] "
 
 
 def oracle(case, out_line):
@@ -391,8 +504,9 @@ def oracle(case, out_line):
 
 
 def oracle_ex(case, out_line):
-    """-> (c11_failures, c12_failures, index of the first cycle whose due answers include an ErrNoError block without
-    any offset -- from there on the texts say nothing -- or None).  Evaluates what the texts of C11 and C12 require on one observed run, from the scripted environment alone plus
+    """-> (c11_failures, c12_failures, index of the first cycle in which a broker behaves in a way the texts do not cover:
+    an ErrNoError block without any offset among the due answers, an asked block missing from a response, a block in a
+    response that was not asked -- or None).  Evaluates what the texts of C11 and C12 require on one observed run, from the scripted environment alone plus
     the observation of *whether* metadata was re-read in a cycle (M).  Returns (c11_failures, c12_failures): lists of
     (cycle index, text).  State carried: the last completely refreshed metadata (ghost) and whether the previous
     cycle obliges a re-read.
@@ -410,6 +524,7 @@ def oracle_ex(case, out_line):
     undefined_at = None
     ghost = None          # topic -> (ids with a leader at refresh time, total partition count, ids are 0..n-1)
     must_refresh = True   # Start() reads metadata in the first cycle
+    must_refresh_literal = False   # the previous cycle's refresh met a partition without leader (an "unknown leader")
     for i, cyc in enumerate(cycles):
         if i >= len(obs):
             f11.append((i, "no output for this cycle"))
@@ -422,15 +537,19 @@ def oracle_ex(case, out_line):
             cands = [ghost or {}]
             if _refreshed_snapshot(cyc) is not None:
                 cands.append(_refreshed_snapshot(cyc))
-            if not any(_expect(cyc, sn)[4] for sn in cands):
+            if not any(_expect(cyc, sn)[4] for sn in cands) and not _any_empty_answer(cyc):
                 f11.append((i, "implementation crashed in a cycle without an empty successful answer"))
             else:
                 undefined_at = i
             break
         if o["X"]:
             f11.append((i, "unexpected storage request / request block not for the newest offset / reaper misbehaviour"))
-        if (must_refresh or cyc["tick"]) and not o["M"] and not cyc["rm"]:
-            f11.append((i, "metadata not re-read although the ticker fired or the previous cycle saw an error / unknown leader"))
+        if must_refresh and not o["M"] and not cyc["rm"]:
+            f11.append((i, "metadata not re-read although the previous cycle saw a partition error / an unknown leader in "
+                           "generateOffsetRequests (or this is the first cycle)"))
+        elif must_refresh_literal and not o["M"] and not cyc["rm"]:
+            f11.append((i, TAG_LEADERLESS + "metadata not re-read although the previous cycle's refresh met a partition "
+                           "without leader (\"an unknown leader causes cluster metadata to be re-read on the next cycle\")"))
         new = _refreshed_snapshot(cyc) if o["M"] else None
         # C12: deletions exactly = topics of the last complete refresh that a complete refresh of this cycle lacks
         want_d = []
@@ -444,24 +563,51 @@ def oracle_ex(case, out_line):
             ghost = new
         snap = ghost or {}
         # C11: exactly the current leaders of the partitions known to have one are asked; answers <-> updates
-        want_r, want_u, unknown_leader, partition_error, undefined = _expect(cyc, snap)
-        if o["R"] != sorted(want_r):
-            f11.append((i, "broker requests %s, the property requires %s" % (o["R"], sorted(want_r))))
+        want_r, want_u, unknown_leader, partition_error, undefined, tolerated, outside = \
+            _expect(cyc, snap, {r[0] for r in o["R"]})
+        if outside and undefined_at is None:
+            undefined_at = i      # the oracle goes on (it knows what to tolerate); the comparison with the model does not count from here
+        # the partitions known to have a leader must be asked (of their current leader); whatever else is asked must
+        # also be asked of the broker Leader names now, no partition twice.  (An implementation that resolves more
+        # partitions than the last metadata read knew is closer to the text, not further.)
+        missing = sorted(want_r - set(o["R"]))
+        wrong = sorted(r for r in o["R"] if _leader_req(cyc, r[1], r[2]) != r[0])
+        twice = len({(r[1], r[2]) for r in o["R"]}) != len(o["R"])
+        if missing or wrong or twice:
+            f11.append((i, "broker requests %s: not asked %s, asked of somebody who is not the current leader %s%s; required at least %s"
+                        % (o["R"], missing, wrong, ", a partition asked twice" if twice else "", sorted(want_r))))
+        # Requests beyond the known-leader set: their successful answers are answers too and must be recorded; as count
+        # both the module's last complete read and the current partition list are "the topic's total partition count".
+        want_more = {}
+        for (b, t, p) in sorted(set(o["R"]) - want_r):
+            if missing or wrong or twice or b in cyc["failing"] or (t, p) in cyc["omit"]:
+                continue
+            err, offs = _answer(cyc, t, p)
+            row = cyc["table"].get(t)
+            if err == 0 and offs and row is not None:
+                want_more[(t, p, offs[0])] = {len(row[1])} | ({snap[t][1]} if t in snap else set())
+            elif err == 0 and not offs:
+                undefined = True
         if undefined:
-            undefined_at = i
+            undefined_at = i if undefined_at is None else undefined_at
             break   # the texts say nothing about what follows
+        got_u = [u for u in o["U"] if u in want_u or (u[0], u[1], u[2]) not in tolerated]
+        more_seen = {(u[0], u[1], u[2]) for u in got_u if u not in want_u and u[3] in want_more.get((u[0], u[1], u[2]), ())}
+        core_u = [u for u in got_u if (u[0], u[1], u[2]) not in more_seen or u in want_u]
         if cyc["su"]:
-            extra = [u for u in o["U"] if u not in want_u]
-            if extra or len(set(o["U"])) != len(o["U"]):
+            extra = [u for u in core_u if u not in want_u]
+            if extra or len(set(got_u)) != len(got_u):
                 f11.append((i, "storage (not reading in time) received SetBrokerOffset %s; only %s were due, each at most once"
-                            % (o["U"], sorted(want_u))))
-        elif o["U"] != sorted(want_u):
-            f11.append((i, "SetBrokerOffset %s, the property requires %s (kafka-version %s)"
-                        % (o["U"], sorted(want_u), KAFKA_VERSIONS[cyc["kv"]] or "(default)")))
-        for (t, p, off, count) in o["U"]:
+                            % (o["U"], sorted(want_u) + sorted(want_more))))
+        elif core_u != sorted(want_u) or more_seen != set(want_more) or len(set((u[0], u[1]) for u in got_u)) != len(got_u):
+            f11.append((i, "SetBrokerOffset %s, the property requires %s%s (kafka-version %s)"
+                        % (got_u, sorted(want_u), (" and " + str(sorted(want_more))) if want_more else "",
+                           KAFKA_VERSIONS[cyc["kv"]] or "(default)")))
+        for (t, p, off, count) in got_u:
             if t in snap and snap[t][2] and not 0 <= p < count:
                 f11.append((i, "update for partition %d with TopicPartitionCount %d" % (p, count)))
         must_refresh = unknown_leader or partition_error
+        must_refresh_literal = bool(o["M"]) and _unknown_leader_at_refresh(cyc)
         if must_refresh and not o["F"]:
             f11.append((i, "fetchMetadata not set after a partition error / unknown leader"))
     return f11, f12, undefined_at
@@ -474,6 +620,14 @@ def first_difference(a, b, project):
         if x != y:
             return i
     return min(len(pa), len(pb))
+
+
+def split_failures(case, out_line, which):
+    """-> (failures that count, failures that are the recorded finding C11:leaderless-at-refresh)"""
+    f11, f12 = oracle(case, out_line)
+    if which == 12:
+        return f12, []
+    return ([x for x in f11 if not x[1].startswith(TAG_LEADERLESS)], [x for x in f11 if x[1].startswith(TAG_LEADERLESS)])
 
 
 def kinds_of(cycles):
@@ -495,6 +649,7 @@ def run_check(chk, failed, which):
     n = (5000 if which == 11 else 4000) if not chk.thorough else 150000
     n_stall = 96 if not chk.thorough else 1000
     n_wire = (64 if which == 11 else 32) if not chk.thorough else 800
+    n_dev = ((1000 if which == 11 else 300) if not chk.thorough else 30000)
     stall_p = (0.25, 0.5) if which == 11 else (0.6, 0.15)     # (p of sd, p of su) per cycle
     cases, tags = [], []
     for ln in C.read_corpus(pid):
@@ -510,6 +665,10 @@ def run_check(chk, failed, which):
         tags.append(tg)
     for i in range(n):
         ln, tg = gen_scenario(chk.rng, i, bias=bias, crash_p=(0.012 if which == 11 else 0.003))
+        cases.append(ln)
+        tags.append(tg)
+    for i in range(n_dev):
+        ln, tg = gen_scenario(chk.rng, i, bias=bias, crash_p=0.005, mode="deviant")
         cases.append(ln)
         tags.append(tg)
     chk.rule = (
@@ -528,6 +687,9 @@ def run_check(chk, failed, which):
           "encoder/decoder in the version of the request; 1-5 cycles, a broker id re-registering under a new address between "
           "cycles with p=0.4, the real groups reaper / ListConsumerGroups between cycles with p=0.4 for kafka-versions "
           "0.11 .. 2.1)" % (n_stall, stall_p[0], stall_p[1], n_wire)
+        + "; %d scenarios in worlds outside the model's two environment assumptions (kind sc3, ClusterMod.xrun): Leader "
+          "answering differently during the refresh and in generateOffsetRequests (p=0.1 per partition and cycle), brokers "
+          "omitting asked blocks (p=0.06) or adding unasked ones (p=0.15 per cycle)" % n_dev
         + ". non-trivial = at least one fault, topology change or storage stall in the scenario; distinct by the case line")
     impl, model, mism = chk.differential("cluster", "cluster", "TestVerifProbeCluster", cases,
                                          name="scn%d" % which, project=project)
@@ -543,8 +705,9 @@ def run_check(chk, failed, which):
         chk.notes.append("%d real-time scenario(s) mismatched in the big run and were re-run on their own: %d still mismatch"
                          % (len(timing), len(still)))
         mism = [(i, c, impl[i], b) for (i, c, a, b) in mism if i not in timing or i in still]
-    # An ErrNoError block without any offset is outside both texts (the model, like HEAD, dies on Offsets[0]).  A
-    # difference that begins in such a cycle is recorded, not reported.
+    # An ErrNoError block without any offset is outside both texts (the model, like HEAD, dies on Offsets[0]); so is a
+    # broker that omits an asked block or answers blocks nobody asked for (the model does what HEAD does: silence /
+    # an update with cap(unknown slice) as count).  A difference that begins in such a cycle is recorded, not reported.
     tolerated = []
     for m in mism:
         u = oracle_ex(m[1], m[2])[2]
@@ -552,12 +715,12 @@ def run_check(chk, failed, which):
             tolerated.append(m)
     if tolerated:
         mism = [m for m in mism if m not in tolerated]
-        chk.count("tolerated:differs-from-the-model-only-after-an-empty-successful-answer", len(tolerated))
+        chk.count("tolerated:differs-from-the-model-only-after-a-broker-left-the-texts", len(tolerated))
         chk.notes.append("%d case(s) differ from the model only from a cycle on in which a broker answered ErrNoError without "
-                         "any offset (the model dies there like HEAD's Offsets[0]; the property texts do not cover it): "
+                         "any offset, omitted an asked block or added an unasked one (the property texts do not cover such brokers): "
                          "first: %s -> impl %s / model %s" % (len(tolerated), tolerated[0][1], tolerated[0][2], tolerated[0][3]))
-    n_orc_fail = 0
-    first_orc = None
+    n_orc_fail = n_known = 0
+    first_orc = first_known = None
     for i, (c, tg, a) in enumerate(zip(cases, tags, impl)):
         cyc = parse(c)
         if any(not x.startswith("kafka-version:") for x in tg - {"corpus"}):
@@ -594,8 +757,12 @@ def run_check(chk, failed, which):
                 chk.count("impl:some-update")
             if any(o["F"] for o in obs):
                 chk.count("impl:refresh-forced")
-        f11, f12 = oracle(c, a)
-        fl = f11 if which == 11 else f12
+        fl, kn = split_failures(c, a, which)
+        if kn:
+            n_known += 1
+            chk.count("known-finding:" + FINDING_LEADERLESS)
+            if first_known is None:
+                first_known = (i, kn)
         if fl:
             n_orc_fail += 1
             if first_orc is None:
@@ -608,8 +775,7 @@ def run_check(chk, failed, which):
     reported = 0
     # mismatching cases first: does the property's own oracle reject the implementation's output there?
     for (i, c, a, b) in mism:
-        f11, f12 = oracle(c, a)
-        fl = f11 if which == 11 else f12
+        fl, _ = split_failures(c, a, which)
         if fl and reported < 5:
             reported += 1
             chk.violation("scn_%d" % i, {"kind": "history", "probe": probe, "case": c, "impl_output": a, "model_output": b,
@@ -631,8 +797,7 @@ def run_check(chk, failed, which):
         impl2, model2, mism2 = chk.differential("cluster", "cluster", "TestVerifProbeCluster", extra,
                                                 name="focus%d" % which, project=project)
         for j, (c, a) in enumerate(zip(extra, impl2)):
-            f11, f12 = oracle(c, a)
-            fl = f11 if which == 11 else f12
+            fl, _ = split_failures(c, a, which)
             if fl:
                 reported += 1
                 chk.violation("focus_%d" % j, {"kind": "history", "probe": probe, "case": c, "impl_output": a,
@@ -648,10 +813,27 @@ def run_check(chk, failed, which):
     if failed and not mism and not reported:
         chk.violation("obligation", {"kind": "theorem", "broken": [nm for nm, _ in failed],
                                      "detail": [d for _, d in failed]}, found_input=False)
-    chk.notes.append("oracle (property text on the implementation's output) rejected %d of %d cases" % (n_orc_fail, len(cases)))
+    # The recorded, unrepaired defect: a partition without leader at a metadata read does not force the next read.
+    if n_known:
+        i, kn = first_known
+        if chk.known_finding(FINDING_LEADERLESS):
+            chk.notes.append("known finding %s: the literal text rejects %d of %d cases for this reason only; first: %s -> %s (%s)"
+                             % (FINDING_LEADERLESS, n_known, len(cases), cases[i], impl[i], kn[0][1]))
+        else:
+            chk.violation("leaderless_at_refresh_%d" % i,
+                          {"kind": "history", "probe": probe, "case": cases[i], "impl_output": impl[i], "model_output": model[i],
+                           "broken": "C11 clause 4, literal: an unknown leader causes cluster metadata to be re-read on the next cycle",
+                           "finding_key": FINDING_LEADERLESS, "cases_rejected_for_this_reason": n_known,
+                           "oracle_verdict": ["cycle %d: %s" % x for x in kn],
+                           "note": "this is the recorded finding of findings/C11.json; it is reported as a violation because "
+                                   "known_findings.json does not list the key (run bin/merge-findings)",
+                           "cmd": "bin/check %s --replay <this file>" % pid})
+    chk.notes.append("oracle (property text on the implementation's output) rejected %d of %d cases (not counting the %d known-finding cases)"
+                     % (n_orc_fail, len(cases), n_known))
     chk.assumptions += [
-        "brokers answer exactly the blocks they were asked (the scripted broker does); a response block for a partition that was not asked is outside the model",
-        "Topics/Partitions/Leader answer consistently within one cycle (one environment per cycle); Sarama returns duplicate-free topic and partition lists (the model and the probe agree on duplicates anyway)",
+        "the run-level theorems are about worlds with the two NAMED properties leader_stable (Leader answers the same during the refresh and in generateOffsetRequests of one cycle) and answers_match_asks (a response holds exactly the asked blocks); the general cycle xcycle / xrun drops both, is tied by the sc3 cases and has its own one-cycle theorems (C11_x*)",
+        "Topics/Partitions answer consistently within one cycle; Sarama returns duplicate-free topic and partition lists (the model and the probe agree on duplicates anyway)",
+        "C11 clauses 1 and 4 in their literal reading are refuted for HEAD (known finding C11:leaderless-at-refresh; C11_*_refuted); the cases the literal oracle rejects for this reason only are counted under known-finding:*",
         "storage side: the model states per offered broker-offset update whether storage takes it within the 1 s of TimeoutSendStorageRequest (storage_beh); the tie exercises the two constant behaviours (always in time / nobody reading while the brokers' answers arrive) and a 1.5 s stall at the start of a cycle; partial stalls (some updates of a cycle lost, which ones depends on Go map order) are covered by the theorems only",
         "C11 'every successful answer produces exactly one update' is proved and checked under the named hypothesis storage_in_time (storage took the request within the timeout); without it only soundness (nothing fabricated, stale or doubled)",
         "the request version is not in the model: the scripted broker answers in the wire format of the version it is asked in (v0: Offsets only; v1+: Offset/Timestamp, Offsets=[Offset]) and refuses versions the configured kafka-version lacks; the wire scenarios check that this is what sarama really does",
@@ -673,6 +855,8 @@ def replay(path, which):
         return 1
     chk = framework.Check("C%d" % which, "quick", int(obj.get("seed", 1)))
     impl, model, mism = chk.differential("cluster", "cluster", "TestVerifProbeCluster", [case], name="replay")
-    f11, f12 = oracle(case, impl[0])
-    print("case  : %s\nimpl  : %s\nmodel : %s\noracle: %s" % (case, impl[0], model[0], (f11 if which == 11 else f12) or "accepts"))
-    return 1 if (mism or (f11 if which == 11 else f12)) else 0
+    fl, kn = split_failures(case, impl[0], which)
+    print("case  : %s\nimpl  : %s\nmodel : %s\noracle: %s" % (case, impl[0], model[0], fl or "accepts"))
+    if kn:
+        print("known finding %s: %s" % (FINDING_LEADERLESS, kn))
+    return 1 if (mism or fl or (kn and obj.get("finding_key") == FINDING_LEADERLESS)) else 0
